@@ -181,6 +181,21 @@ func genSeq(r *hx.Rng, kind string) string {
 			msgs = append(msgs, fmt.Sprintf("%d:e:%s", a, share(a)), fmt.Sprintf("%d:e:%s", b, share(a)))
 			return fmt.Sprintf("shareseq %d %s %s %s", self, strings.Join(pks, ","), prev, strings.Join(msgs, " "))
 		}
+		if kind == "entry" && r.Chance(1, 3) {
+			// replay-short history: one member short of the threshold, and the missing members
+			// only ever send (after the genuine sender) a copy of another member's share bytes
+			n, thr = 3, 3
+			coefs = coefs[:0]
+			for j := 0; j < thr; j++ {
+				coefs = append(coefs, randScalar(r))
+			}
+			self = r.Range(1, 3)
+			a := self%3 + 1
+			b := a%3 + 1
+			sa := mulmod(evalPoly(coefs, int64(a)), prev).String()
+			msgs = []string{fmt.Sprintf("%d:e:%s", a, sa), fmt.Sprintf("%d:e:%s", b, sa), fmt.Sprintf("%d:e:%s", a, sa)}
+			return fmt.Sprintf("entry %d %d %d %s %s %s", self, n, thr, joinBig(coefs), prev, strings.Join(msgs, " "))
+		}
 		if r.Chance(2, 3) { // make most entry cases completable: late valid shares at the end
 			for i := 1; i <= n; i++ {
 				if !valid[i] {
